@@ -18,10 +18,10 @@ from .common import Evidence, Verdicts, run_tlc, pmap, seed
 PROP = "C02"
 
 
-def run_case(case, doc_cache=None):
+def run_case(case, doc_cache=None, noloc=False):
     from graphql import parse, execute_sync
     text = gqlmini.render_doc(case)
-    doc = parse(text) if doc_cache is None else doc_cache.setdefault(text, parse(text))
+    doc = parse(text, no_location=noloc) if doc_cache is None else doc_cache.setdefault((text, noloc), parse(text, no_location=noloc))
     calls = []
     res = execute_sync(gqlmini.schema(), doc, gqlmini.to_py(case["root"]), variable_values=gqlmini.render_vars(case),
                        field_resolver=gqlmini.make_resolver(calls), type_resolver=gqlmini.type_resolver)
@@ -38,11 +38,14 @@ def _chunk(seeds):
         try:
             from graphql import parse, validate
             text0 = gqlmini.render_doc(case)
-            d0 = docs.setdefault(text0, parse(text0))
+            # a third of the documents carry no locations (parse(no_location=True)): structurally equal nodes of
+            # different documents then compare equal, which is what any cache keyed by nodes sees
+            noloc = sd % 3 == 0
+            d0 = docs.setdefault((text0, noloc), parse(text0, no_location=noloc))
             if validate(gqlmini.schema(), d0):
                 out.append({"invalid": True})      # the statement quantifies over documents that pass validation
                 continue
-            text, doc, res, calls = run_case(case, docs)
+            text, doc, res, calls = run_case(case, docs, noloc)
         except Exception as e:  # noqa: BLE001
             out.append({"error": f"{type(e).__name__}: {e}", "seed": sd, "text": gqlmini.render_doc(case)})
             continue
@@ -50,7 +53,7 @@ def _chunk(seeds):
         rec["response"] = gqlmini.enc_response(res)
         rec["calls"] = calls
         rec["conforming"] = False
-        rec["_meta"] = {"seed": sd, "query": text, "variables": gqlmini.render_vars(case)}
+        rec["_meta"] = {"seed": sd, "query": text, "variables": gqlmini.render_vars(case), "no_location": noloc}
         # clause 4: same request again, and after another request on the same schema/document objects
         hist = []
         calls2 = []
